@@ -1,7 +1,8 @@
 import N2k.Spec.Handlers
 import N2k.Model.HandlersRx
-/-! Specification of the calls a history of client operations and received frames must cause (C14, end to end):
-built from the history specification of the handlers (`specStep`) and the receive model's completed messages only. -/
+/-! Specification of the calls a history of client operations, configuration calls, frame arrivals and polls must cause
+(C14, end to end): built from the history specification of the handlers (`specStep`) and the receive side's completed
+messages (`rxTrack`: driver queue + C02 receive model) only. -/
 namespace N2k.Handlers
 
 /-- a message completed on `bus` while the handlers were as `s` says -/
@@ -10,12 +11,12 @@ structure Expect where
   msg : Rx.Msg
   s : SpecSt
 
-/-- for every event of a history: the message it completes (if any) with the handler registrations in force then -/
-def expected (c : BusId → Rx.Cfg) : SpecSt → (BusId → Rx.St) → List Ev → List (Option Expect)
+/-- for every event of a history: the messages it completes, in order, with the handler registrations in force then -/
+def expected (c : BusId → Rx.Cfg) : SpecSt → RxSide → List Ev → List (List Expect)
   | _, _, [] => []
-  | s, rx, .op o :: evs => none :: expected c (specStep s o) rx evs
-  | s, rx, e :: evs =>
-    ((rxTrack c rx e).2.map fun bm => ⟨bm.1, bm.2, s⟩) :: expected c s (rxTrack c rx e).1 evs
+  | s, r, .op o :: evs => [] :: expected c (specStep s o) r evs
+  | s, r, e :: evs =>
+    ((rxTrack c r e).2.map fun bm => ⟨bm.1, bm.2, s⟩) :: expected c s (rxTrack c r e).1 evs
 
 /-- the call made for a completed message is the right one -/
 structure CallOk (k : Call) (e : Expect) : Prop where
@@ -31,11 +32,13 @@ structure CallOk (k : Call) (e : Expect) : Prop where
   /-- in the order of the list: handlers for all PGNs before the handlers of the PGN -/
   order : k.hs.Pairwise fun i j => specPgn e.s i ≤ specPgn e.s j
 
-/-- event by event: a call is made exactly when a message was completed, and it is the right call -/
-def CallsAgree : List (Option Call) → List (Option Expect) → Prop
+/-- two lists agree element by element (same length) -/
+def Agree {α β : Type} (P : α → β → Prop) : List α → List β → Prop
   | [], [] => True
-  | none :: ks, none :: es => CallsAgree ks es
-  | some k :: ks, some e :: es => CallOk k e ∧ CallsAgree ks es
+  | a :: as, b :: bs => P a b ∧ Agree P as bs
   | _, _ => False
+
+/-- event by event: exactly one call per completed message, in order, and it is the right call; no other call -/
+def CallsAgree : List (List Call) → List (List Expect) → Prop := Agree (Agree CallOk)
 
 end N2k.Handlers
